@@ -14,7 +14,9 @@ def scenarios(rep, tier, seed):
     rng = random.Random(seed * 1000003 + 15)
     thorough = tier == "thorough"
     scns = []
-    plan = [(4, 2, 2, 0, 2), (4, 3, 2, 1, 2), (3, 2, 3, 0, 2)] + ([(5, 3, 2, 1, 2), (4, 2, 3, 0, 2)] if thorough else [])
+    # N = 5 with 3 labeled nodes is the smallest shape with a labeled non-prototype that is reached through an unlabeled
+    # bridge from the other class AND passes its (assigned) label on
+    plan = [(4, 2, 2, 0, 2), (4, 3, 2, 1, 2), (3, 2, 3, 0, 2), (5, 3, 2, 1, 2)] + ([(4, 2, 3, 0, 2), (5, 4, 2, 1, 2)] if thorough else [])
     for (n, nl, m, wmin, k) in plan:
         for Wm, Lv in S.tlc_scenarios(rep, n, nl, m, wmin, k):
             scns.append(S.scenario_from_matrix(Wm, Lv, kind="semi", shuffle_rng=rng if rng.random() < 0.5 else None))
